@@ -614,7 +614,8 @@ func c09TextRun(c *Case, k int) {
 	lib := RunLib(t.prog, []InFile{{Name: "in.json", Data: []byte(in)}}, nil, RunOpts{Budget: 200000})
 	c.NonTrivial("text:" + t.prog)
 	c.Count("hand_computed_programs")
-	if lib.Class == "ok" && string(lib.Stdout) == t.want {
+	// (objects are printed with their keys in a deterministic order that no statement fixes: key order apart)
+	if lib.Class == "ok" && (string(lib.Stdout) == t.want || sameLinesOrderFree(t.want, string(lib.Stdout))) {
 		c.Held()
 		return
 	}
